@@ -190,9 +190,24 @@ func (m *MW) StepForge(forceMut, forceVia int) {
 		// than 512 characters (20)
 		long := strings.Repeat("a", 513)
 		desc = "genuine, secret 513 ASCII bytes"
+		lockedLong := false
+		kr := NewKeyRing(7)
 		if mk == 20 {
-			long = []string{strings.Repeat("é", 300), strings.Repeat("a", 511) + "é", strings.Repeat("€", 171)}[m.T.Choose("forge.mb", 3)]
+			// ... also secrets that ARE well-formed NUT-10 JSON (an unknown kind; a P2PK lock with so many
+			// co-signer keys that it exceeds the limit, presented with a valid witness)
+			manyKeys := &LockCfg{Data: kr.PubHex(0), LockKey: 0, Pubkeys: []int{1, 2, 3, 4, 5, 6, 1, 2}, NSigs: 1}
+			opts := []string{strings.Repeat("é", 300), strings.Repeat("a", 511) + "é", strings.Repeat("€", 171),
+				`["note",{"nonce":"00","data":"` + strings.Repeat("x", 700) + `"}]`, manyKeys.Secret(kr)}
+			oi := m.T.Choose("forge.mb", len(opts))
+			if forceMut >= 0 {
+				oi = (m.step/2 + via*2) % len(opts)
+			}
+			long = opts[oi]
+			lockedLong = oi == 4
 			desc = fmt.Sprintf("genuine, secret %d bytes in %d characters", len(long), len([]rune(long)))
+			if len(long) <= 512 {
+				long += strings.Repeat(" ", 513-len(long))
+			}
 		}
 		var got *HProof
 		m.rc.Quietly(func() {
@@ -220,6 +235,10 @@ func (m *MW) StepForge(forceMut, forceVia int) {
 		})
 		if got == nil {
 			return
+		}
+		if lockedLong {
+			wj, _ := json.Marshal(map[string]any{"signatures": []string{SignMsg(kr.Priv[0], []byte(got.Secret), 0)}})
+			got.Witness = string(wj)
 		}
 		p, base = got, []*HProof{got}
 		pj = got.J()
